@@ -187,6 +187,7 @@ type SOp struct {
 	Data   []byte
 	Mask   uint32
 	Cred   Cred
+	Stable *uint32 // WRITE stable_how (default FILE_SYNC)
 }
 
 func (o SOp) String() string {
@@ -292,7 +293,11 @@ func (w *World) do(o SOp) SRes {
 	case "read":
 		out.Reply, out.Res = w.nfs(6, cred, argRead(h, o.Off, o.Count))
 	case "write":
-		out.Reply, out.Res = w.nfs(7, cred, argWrite(h, o.Off, uint32(len(o.Data)), 2, o.Data))
+		stable := uint32(2)
+		if o.Stable != nil {
+			stable = *o.Stable
+		}
+		out.Reply, out.Res = w.nfs(7, cred, argWrite(h, o.Off, uint32(len(o.Data)), stable, o.Data))
 	case "commit":
 		out.Reply, out.Res = w.nfs(21, cred, argCommit(h, o.Off, o.Count))
 	case "readdir", "readdirplus":
